@@ -27,7 +27,8 @@ RULE = ('scripted: sequences of authentication lines over a 12-letter abstract a
         'first byte != NUL, NUL alone, 16384/16385-byte lines, unterminated buffer past 16 KiB. real: ANONYMOUS, '
         'EXTERNAL with/without peer credentials, DBUS_COOKIE_SHA1 with the right response and with wrong cookie / wrong '
         'challenge / swapped / truncated / empty / non-hex / replayed responses, against a spec-following client. '
-        'Non-trivial = the sequence leaves WaitingForAuth, crosses the rejection limit, or is split inside a line; '
+        'cookie_overlap: three simultaneous DBUS_COOKIE_SHA1 exchanges of one user, all orders of their start / end events, '
+        'each completed with the cookie the keyring shows or cancelled - every right answer is accepted. Non-trivial = the sequence leaves WaitingForAuth, crosses the rejection limit, or is split inside a line; '
         'distinct = distinct case JSON.')
 ASSUMPTIONS = ['where the spec leaves the answer open the model admits a set: invalid or non-ASCII hex -> '
                '{ERROR, REJECTED, close (, mechanism outcome)}; non-UTF-8 command -> {ERROR, close}; ERROR text free; '
@@ -589,6 +590,69 @@ def run_real(case):
     return out
 
 
+def enum_cookie_overlap(tier):
+    """Three connections of one user run their cookie exchanges at the same time: every order of the six events
+    (challenge requested / answered) x each exchange either completed with the right answer or cancelled."""
+    events = [('start', 0), ('start', 1), ('start', 2), ('end', 0), ('end', 1), ('end', 2)]
+    for perm in itertools.permutations(events):
+        pos = {e: i for i, e in enumerate(perm)}
+        if any(pos[('start', c)] > pos[('end', c)] for c in range(3)):
+            continue
+        for ends in itertools.product(('finish', 'cancel'), repeat=3):
+            if tier == 'quick' and ends.count('cancel') > 1:
+                continue
+            yield {'ops': [[k if k == 'start' else ends[c], c] for k, c in perm]}
+
+
+def run_cookie_overlap(case):
+    import txdbus.protocol as P
+    saved = P._is_linux
+    scratch = tempfile.mkdtemp(prefix='verif-c06-')
+    os.chmod(scratch, 0o700)
+    out = []
+    try:
+        user = __import__('pwd').getpwuid(os.getuid()).pw_name
+        conns = {}
+        for op, c in case['ops']:
+            if op == 'start':
+                log = _newlog()
+                srv = _real_server('none', scratch, log)
+                N.deliver(srv, b'\0')
+                r = _exchange(srv, b'AUTH DBUS_COOKIE_SHA1 ' + binascii.hexlify(user.encode()))
+                try:
+                    assert r[0][0] == 'DATA'
+                    ctx, cid, schal = binascii.unhexlify(r[0][1].strip()).split()
+                except Exception:
+                    return [Disc('overlap.no-challenge', 'connection %d: server answered %r' % (c, r))]
+                # a conforming client answers at once with the cookie the keyring holds under the announced id
+                cookie = _read_cookie(scratch, ctx, cid)
+                if cookie is None:
+                    return [Disc('overlap.keyring-entry-missing', 'connection %d: id %r' % (c, cid))]
+                cchal = binascii.hexlify(hashlib.sha1(b'client%d' % c).digest())
+                resp = cchal + b' ' + binascii.hexlify(hashlib.sha1(schal + b':' + cchal + b':' + cookie).digest())
+                conns[c] = (srv, log, cid, resp)
+            elif op == 'cancel':
+                srv, log, cid, resp = conns[c]
+                _exchange(srv, b'CANCEL')
+            else:
+                srv, log, cid, resp = conns[c]
+                r = _exchange(srv, b'DATA ' + binascii.hexlify(resp))
+                if not r or r[0][0] != 'OK':
+                    out.append(Disc('overlap.right-cookie-refused', 'history %r: connection %d (cookie id %r) answered %r; '
+                                    'ids in play %r' % (case['ops'], c, cid, r, {k: v[2] for k, v in conns.items()})))
+                    break
+                _exchange(srv, b'BEGIN')
+                if log['authed'] != 1:
+                    out.append(Disc('overlap.not-authenticated-after-begin', 'connection %d' % c))
+                    break
+    except Exception as e:
+        out.append(Disc(exc_key(e, 'overlap.exception'), exc_detail(e)))
+    finally:
+        P._is_linux = saved
+        shutil.rmtree(scratch, ignore_errors=True)
+    return out
+
+
 COOKIE_VARIANTS = ['right', 'right', 'concurrent', 'wrong-cookie', 'wrong-challenge', 'swapped', 'truncated', 'empty', 'one-field',
                    'hash-of-nothing', 'replay']
 
@@ -623,4 +687,9 @@ SUBCHECKS = [
              exhaustive_note='listed framing faults at the 16384/16385 boundary'),
     Subcheck('real', run_real, classify_real, strategy=lambda tier: real_case(tier),
              n={'quick': 60, 'thorough': 400}),
+    Subcheck('cookie_overlap', run_cookie_overlap,
+             lambda c: (True, ['with_cancel'] if any(o[0] == 'cancel' for o in c['ops']) else ['all_finish']),
+             enumerate=enum_cookie_overlap, shards={'quick': 4, 'thorough': 8},
+             exhaustive_note='3 simultaneous DBUS_COOKIE_SHA1 exchanges of one user: all 90 orders of their start / end '
+                             'events x completed-or-cancelled per exchange (quick: at most one cancelled)'),
 ]
